@@ -528,6 +528,30 @@ class Effects:
         memo[key] = res
         return res
 
+    def _pairs_complete(self, cs) -> bool:
+        """every tuple the callee(s) return is all-None or None-free"""
+        if cs is None or not cs.targets:
+            return False
+        from .dataflow import flow_of
+
+        for t in cs.targets:
+            if t.parent is not None and t.name == "wrapper":
+                continue
+            tflow = flow_of(t.node)
+            for n in own_nodes(t.node):
+                if not isinstance(n, ast.Return) or n.value is None:
+                    continue
+                vals = [n.value]
+                if isinstance(n.value, ast.Name):
+                    node = tflow.node_of(n)
+                    vals = [d.value for d in (tflow.defs_reaching(node.id, n.value.id) if node is not None else []) if d.kind == "assign" and d.value is not None]
+                for v in vals:
+                    if isinstance(v, ast.Tuple):
+                        nones = [isinstance(e, ast.Constant) and e.value is None for e in v.elts]
+                        if any(nones) and not all(nones):
+                            return False
+        return True
+
     def _none_derefs(self, f: FunctionInfo, cfg: CFG, sites):
         """(node, exception, discharge reason or None) for dereferences of a local that holds the result of a library /
         dependency function which may answer None, and is used without a dominating truth test"""
@@ -575,14 +599,24 @@ class Effects:
             if node is None:
                 continue
             reaching = [d for d in flow.defs_reaching(node.id, base.id)]
-            if not reaching or not all(d in cand[base.id] for d in reaching):
+            if not reaching or not any(d in cand[base.id] for d in reaching):
                 continue
+            # names unpacked from the same call: `t, d = f()` where f answers (None, None) or a complete pair - a truth test on
+            # one proves the other
+            siblings = set()
+            for d in reaching:
+                if d in cand[base.id] and d.kind == "unpack":
+                    for d2 in flow.all_defs:
+                        if d2.kind == "unpack" and d2.value is d.value and d2.var != base.id and self._pairs_complete(sites.get(id(d.value))):
+                            siblings.add(d2.var)
             # guarded by a truth test on the name (or `is not None`)
             guarded = None
             for t, lab in list(self._dominating_tests(cfg, base)) + list(_short_circuit_facts(f.node, base)):
                 for e, truth in _atomise(t, lab == "true"):
                     if isinstance(e, ast.Name) and e.id == base.id and truth:
                         guarded = f"under `{base.id}`"
+                    if isinstance(e, ast.Name) and e.id in siblings and truth:
+                        guarded = f"under `{e.id}`, which the callee answers together with `{base.id}` (both or neither)"
                     if isinstance(e, ast.Compare) and len(e.ops) == 1 and isinstance(e.ops[0], ast.Is) and isinstance(e.left, ast.Name) \
                             and e.left.id == base.id and isinstance(e.comparators[0], ast.Constant) and e.comparators[0].value is None and not truth:
                         guarded = f"under `{base.id} is not None`"
@@ -593,7 +627,8 @@ class Effects:
                     if truth and isinstance(e, ast.Call) and any(d.kind == "assign" and d.value is not None and norm(d.value) == norm(e) for d in reaching):
                         guarded = f"the same call `{norm(e)[:40]}` was tested"
             what = n if not isinstance(n, (ast.For, ast.keyword)) else base
-            out.append((what, "AttributeError" if isinstance(n, ast.Attribute) else "TypeError", guarded, srcs.get(id(reaching[0]), "?")))
+            src_def = next(d for d in reaching if d in cand[base.id])
+            out.append((what, "AttributeError" if isinstance(n, ast.Attribute) else "TypeError", guarded, srcs.get(id(src_def), "?")))
         return out
 
     def _computed_format_string(self, f: FunctionInfo, recv: ast.AST, at: ast.AST) -> bool:
